@@ -1,7 +1,7 @@
 """C35 — Private parts of partially shared buffers (DESIGN.md 3, C35, thin)."""
 from .. import ex, lib
 from ..core import where
-from ..ir import AnalysisBroken
+from ..ir import AnalysisBroken, REPO
 
 UNITS = ['src/smpi/internals/smpi_shared.cpp', 'src/smpi/internals/smpi_global.cpp']
 EXPLANATION = ('R1 unsigned-difference belief: in shift_and_frame_private_blocks every subtraction of two unsigned operands is guarded by the comparison '
@@ -17,8 +17,82 @@ def unsigned_t(t):
     return t.startswith('unsigned') or t in ('size_t', 'std::size_t')
 
 
+def run_raw_lists(ctx, P, A):
+    """R5: the block list filled by smpi_is_shared holds positions in the *allocation*; positions in the *message* exist only after
+    shift_and_frame_private_blocks(list, offset, size) with the offset of the same call."""
+    from ..cfg import abstract_run
+    ctx.rule('R5', 'a private-block list filled by smpi_is_shared is used for positions (iterated, or handed to another function) only after '
+             'shift_and_frame_private_blocks(list, offset of the same call, size); before that only its size and block lengths may be read', 3)
+    ncall = 0
+    for f in sorted(P.fns.values(), key=lambda f: f['key']):
+        if not f.get('blocks') or f['q'] == 'smpi_is_shared':
+            continue
+        v = A.view(f)
+        calls = [e for eid in range(len(f['elems'])) for e in v.events_of(eid) if e.eid == eid and e.kind == 'call' and e.q == 'smpi_is_shared' and len(e.args) == 3]
+        if not calls:
+            continue
+        lists = {}
+        for c in calls:
+            lst = c.args[1]
+            off = c.args[2][2] if c.args[2][0] == 'un' and c.args[2][1] == '&' else c.args[2]
+            lists.setdefault(lst, set()).add(off)
+        for lst, offs in sorted(lists.items(), key=repr):
+            ncall += 1
+            bad = []
+
+            def transfer(st, e, lst=lst, offs=offs, bad=bad):
+                if e.kind == 'call':
+                    if e.q == 'smpi_is_shared' and len(e.args) == 3 and e.args[1] == lst:
+                        return 'raw'
+                    if e.q.endswith('shift_and_frame_private_blocks'):
+                        return st
+                    if e.obj == lst and e.q.rsplit('::', 1)[-1] == 'operator=':
+                        fr = [t for a in e.args for t in ex.subterms(a) if t[0] == 'call' and t[1].endswith('shift_and_frame_private_blocks')]
+                        if fr:
+                            t = fr[0]
+                            if not (len(t[3]) >= 2 and t[3][0] == lst and t[3][1] in offs):
+                                bad.append((e.line, 'framed with %s, not the offset smpi_is_shared filled' % ex.pretty(t[3][1] if len(t[3]) > 1 else ('none',))))
+                        return 'framed'       # re-assigned: framed, or replaced by a list of the caller
+                    if e.obj == lst and e.q.rsplit('::', 1)[-1] == 'clear':
+                        return 'framed'       # emptied: what the caller puts in afterwards is in its own coordinates
+                    if st == 'raw':
+                        if e.obj == lst and e.q.rsplit('::', 1)[-1] in ('begin', 'end', 'cbegin', 'cend', 'front', 'back', 'data'):
+                            bad.append((e.line, 'iterated'))
+                        elif e.obj != lst and any(ex.mentions(a, lst) and not (a[0] == 'call' and a[2] == lst) for a in e.args) and not e.q.startswith(('_xbt_log', 'xbt_log')):
+                            okarg = all((not ex.mentions(a, lst)) or any(t[0] == 'call' and t[2] == lst and t[1].rsplit('::', 1)[-1] in ('size', 'empty', 'operator[]') for t in ex.subterms(a)) for a in e.args)
+                            if not okarg:
+                                bad.append((e.line, 'handed to %s' % e.q.rsplit('::', 1)[-1]))
+                    return st
+                if e.kind == 'assign':
+                    rhs = e.rhs
+                    while rhs[0] in ('cast', 'conv', 'ctor') and len(rhs) > 2 and isinstance(rhs[2], tuple) and rhs[2] and isinstance(rhs[2][0], str):
+                        rhs = rhs[2]
+                    fr = [t for t in ex.subterms(e.rhs) if t[0] == 'call' and t[1].endswith('shift_and_frame_private_blocks')]
+                    if fr and e.lhs == lst:
+                        t = fr[0]
+                        ok = len(t[3]) >= 2 and t[3][0] == lst and t[3][1] in offs
+                        if not ok:
+                            bad.append((e.line, 'framed with %s, not the offset smpi_is_shared filled' % ex.pretty(t[3][1] if len(t[3]) > 1 else ('none',))))
+                        return 'framed'
+                    if st == 'raw' and e.lhs[0] == 'var' and e.lhs[2].startswith('__range') and ex.mentions(e.rhs, lst):
+                        bad.append((e.line, 'iterated'))
+                    return st
+                return st
+            abstract_run(A, f, 'none', transfer)
+            short = f['q'].replace('simgrid::smpi::', '')
+            if bad:
+                line, what = sorted(set(bad))[0]
+                ctx.violation('R5', '%s: %s is framed before its positions are used' % (short, ex.pretty(lst)), where(f, line),
+                              'the list is %s while its blocks are still relative to the allocation: for a message that starts at a non-zero offset the private bytes are looked for at the wrong place' % what,
+                              key='R5|%s|%s raw' % (short.rsplit('::', 1)[-1], ex.pretty(lst)))
+            else:
+                ctx.holds('R5', '%s: %s is framed before its positions are used' % (short, ex.pretty(lst)), where(f), 'typestate raw -> framed over every path')
+    ctx.require(ncall >= 3, 'R5', 'only %d block list(s) filled by smpi_is_shared found' % ncall)
+
+
 def run(ctx):
-    P = ctx.load(UNITS)
+    smpi = sorted(u[len(REPO) + 1:] for u in ctx.all_units() if u.startswith(REPO + '/src/smpi/') and '/colls/' not in u)
+    P = ctx.load(sorted(set(UNITS) | set(smpi)))
     A = ctx.analyzer
     # ---- R1 ----------------------------------------------------------------------------------------------------------------------------------
     ctx.rule('R1', 'every unsigned subtraction in shift_and_frame_private_blocks is guarded by minuend > subtrahend', 2)
@@ -203,4 +277,5 @@ def run(ctx):
                 okpair = False
                 detail = 'line %s frames %s with %s, but smpi_is_shared (line %s) filled %s / %s' % (f_.line, ex.pretty(f_.args[0]), ex.pretty(f_.args[1]), c_.line, ex.pretty(c_.args[1]), ex.pretty(c_.args[2]))
     ctx.check(okpair, 'R4', 'copy callback: each side is framed with the block list and the offset smpi_is_shared filled for that side', where(cb), detail, key='R4|smpi_comm_copy_buffer_callback|offset of its side')
+    run_raw_lists(ctx, P, A)
     return EXPLANATION
